@@ -20,10 +20,15 @@ z3.set_param("sat.random_seed", SEED % (2 ** 30))
 
 # --------------------------------------------------------------------------------------------- scratch
 _SCRATCH = []
+_ROOT = [None]
+def scratch_root():
+    """one scratch root per check run, created in the parent process (Check.__init__) and removed by its atexit handler; forked pool workers inherit it,
+    so directories they create are removed too (multiprocessing workers never run atexit handlers themselves)"""
+    if _ROOT[0] is None or not os.path.isdir(_ROOT[0]):
+        _ROOT[0] = tempfile.mkdtemp(prefix="verif_root_"); _SCRATCH.append((os.getpid(), _ROOT[0]))
+    return _ROOT[0]
 def scratch(prefix="verif_"):
-    d = tempfile.mkdtemp(prefix=prefix)
-    _SCRATCH.append((os.getpid(), d))
-    return d
+    return tempfile.mkdtemp(prefix=prefix, dir=scratch_root())
 def _cleanup():
     for pid, d in _SCRATCH:
         if pid == os.getpid(): shutil.rmtree(d, ignore_errors=True)
@@ -138,7 +143,7 @@ class Check:
     'stretch' obligations may stay undecided without affecting the verdict (they are reported separately)."""
     def __init__(s, pid, tier, level="other"):
         s.pid, s.tier, s.level = pid, tier, level
-        s.t0 = time.time()
+        s.t0 = time.time(); scratch_root()
         s.obl = []            # dicts: name, status, stretch, detail
         s.paths = 0
         s.distinct = set()
